@@ -46,3 +46,11 @@ def concretise(pc, it):
     if 'NO_FILE_LEFT_OPEN' in note:
         fault = {'call': 'getsize'}
     return {'script': 'static_case.py', 'case': {'requests': REQS, 'fault': fault}}
+
+
+def fallback(pc):
+    """native cases tried when the deductive verdict is undecided"""
+    cases = [{'script': 'static_case.py', 'case': {'requests': REQS, 'fault': None, 'revalidate': True}}]
+    for call in ('read', 'getsize', 'getmtime', 'seek'):
+        cases.append({'script': 'static_case.py', 'case': {'requests': REQS, 'fault': {'call': call}}})
+    return cases
